@@ -410,4 +410,4 @@ class Tag(BaseTag):
     @metadata.deleter
     def metadata(self):
         if "metadata" in self._h5group:
-            self._h5group.delete("metadata")
+            self._h5group.delete("metadata", False)
